@@ -303,9 +303,9 @@ func (o *Origins) compute(v ssa.Value, depth int) *Term {
 		if isTransparentConv(x) {
 			return o.of(x.X, depth+1)
 		}
-		return &Term{Op: "op", Name: "conv:" + typeName(x.Type()), Args: []*Term{o.of(x.X, depth+1)}}
+		return &Term{Op: "call", Name: "conv:" + typeName(x.Type()), Args: []*Term{o.of(x.X, depth+1)}}
 	case *ssa.TypeAssert:
-		return &Term{Op: "op", Name: "assert:" + typeName(x.AssertedType), Args: []*Term{o.of(x.X, depth+1)}}
+		return &Term{Op: "call", Name: "assert:" + typeName(x.AssertedType), Args: []*Term{o.of(x.X, depth+1)}}
 	case *ssa.Phi:
 		if len(x.Edges) > 8 {
 			return opaque("phi-wide")
@@ -474,6 +474,9 @@ func (o *Origins) callTerm(c *ssa.CallCommon, depth int) *Term {
 	}
 	if b, ok := c.Value.(*ssa.Builtin); ok {
 		return &Term{Op: "op", Name: b.Name(), Args: o.args(c.Args, depth)}
+	}
+	if f := FuncAlias(c.Value); f != nil {
+		return &Term{Op: "call", Name: FuncName(f), Args: spliceVariadic(c, o.args(c.Args, depth))}
 	}
 	as := append([]*Term{o.of(c.Value, depth+1)}, o.args(c.Args, depth)...)
 	return &Term{Op: "call", Name: "dyn", Args: as}
@@ -816,3 +819,56 @@ func InstrDominates(a, b ssa.Instruction) bool {
 
 // FieldNameOf returns the name of the field addressed by fa.
 func FieldNameOf(fa *ssa.FieldAddr) string { return fieldName(fa.X.Type(), fa.Field) }
+
+var funcAliasMemo = map[*ssa.Global]*ssa.Function{}
+
+// FuncAlias resolves a call through a package-level function variable that is assigned exactly once, in its
+// package initialiser, to a function (`var ZeroInt = sdkmath.ZeroInt`): the call is to that function.
+func FuncAlias(v ssa.Value) *ssa.Function {
+	u, ok := v.(*ssa.UnOp)
+	if !ok {
+		return nil
+	}
+	g, ok := u.X.(*ssa.Global)
+	if !ok || g.Pkg == nil {
+		return nil
+	}
+	if f, ok := funcAliasMemo[g]; ok {
+		return f
+	}
+	var found *ssa.Function
+	n := 0
+	if initFn := g.Pkg.Func("init"); initFn != nil {
+		for _, b := range initFn.Blocks {
+			for _, ins := range b.Instrs {
+				if st, ok := ins.(*ssa.Store); ok && st.Addr == g {
+					n++
+					if f, ok := st.Val.(*ssa.Function); ok {
+						found = f
+					}
+				}
+			}
+		}
+	}
+	if n != 1 {
+		found = nil
+	}
+	// the variable must not be assigned anywhere else in its package
+	if found != nil {
+		for _, m := range g.Pkg.Members {
+			fn, ok := m.(*ssa.Function)
+			if !ok || fn.Name() == "init" {
+				continue
+			}
+			for _, b := range fn.Blocks {
+				for _, ins := range b.Instrs {
+					if st, ok := ins.(*ssa.Store); ok && st.Addr == g {
+						found = nil
+					}
+				}
+			}
+		}
+	}
+	funcAliasMemo[g] = found
+	return found
+}
